@@ -42,9 +42,11 @@ def main(tier):
         files = {}
         blocks = d
         if form == "macro":
-            vs = [v for v in c07.variants(d, tx, rnd) if v[0] in ("top", "nested", "url_children", "method_children")]
+            vs = [v for v in c07.variants(d, tx, rnd) if v[0] in ("top", "nested", "url_children", "method_children", "unused")]
             if vs:
-                blocks = rnd.choice(vs)[1]
+                vname, blocks = rnd.choice(vs)
+                if vname == "unused":
+                    form = "macro_unused"          # a MACRO is defined, nothing is pasted
             else:
                 form = "plain"
         elif form == "include":
@@ -56,9 +58,13 @@ def main(tier):
         used = set(tx["kinds"])
         if form == "macro":
             used |= {"MACRO", "PASTE"}
+        if form == "macro_unused":
+            used |= {"MACRO"}
         if form == "include":
             used |= {"INCLUDE"}
         bans = [sorted(tx["ban"]), [singles[(n + seed()) % 30]]]
+        if form == "macro_unused":
+            bans.append(["PASTE"])             # banning what does not occur changes nothing, whatever else is defined
         ff = {"main.jst": b64(text)}
         ff.update({k: b64(v) for k, v in files.items()})
         cases.append({"id": "p%d" % n, "files": ff, "root": "main.jst"})
